@@ -96,7 +96,7 @@ def st_case(draw, max_ops=14):
     for _ in range(draw(st.integers(3, max_ops))):
         t = draw(st.sampled_from(["fit", "fit", "fit", "fit", "edit", "edit", "edit", "pre", "pre_bad", "refit",
                                   "refit", "rate", "emod", "getparams_edit", "repeat", "fitpre", "params_attr",
-                                  "plateau_range", "plateau_range", "range_nudge", "pre_details", "dict_reorder"]))
+                                  "plateau_range", "plateau_range", "range_nudge", "pre_details", "dict_reorder", "pre_held"]))
         if t == "params_attr":
             ops.append({"op": "params_attr", "attr": draw(st.sampled_from(["vary", "min", "max", "value", "expr", "fix_then_expr"])),
                         "name": draw(st.sampled_from(["E", "contact_point", "baseline"])),
@@ -107,6 +107,11 @@ def st_case(draw, max_ops=14):
             continue
         if t == "pre_details":
             ops.append({"op": "pre_details"})
+            continue
+        if t == "pre_held":
+            ops.append({"op": "pre_held", "method": draw(st.sampled_from(["fit_constant_line", "gradient_zero_crossing",
+                                                                          "frechet_direct_path"])),
+                        "extend": draw(st.booleans())})
             continue
         if t == "range_nudge":
             # a second request whose interval differs by a few nm only
@@ -255,6 +260,17 @@ def do_op(idnt, op, curve):
                       "correct_tip_offset": {"method": "deviation_from_baseline"}}
                 idnt.fit_model(preprocessing=steps, preprocessing_options=o1)
                 idnt.fit_model(preprocessing=list(steps), preprocessing_options=o2)
+        elif kind == "pre_held":
+            # the caller keeps ONE step list and ONE options dictionary, applies them, edits both in place and applies
+            # them again (no fit in between), then fits
+            steps = ["compute_tip_position", "correct_tip_offset"]
+            opts = {"correct_tip_offset": {"method": "deviation_from_baseline"}}
+            idnt.apply_preprocessing(steps, opts)
+            opts["correct_tip_offset"]["method"] = op["method"]
+            if op["extend"]:
+                steps.append("correct_force_offset")
+            idnt.apply_preprocessing(steps, opts)
+            idnt.fit_model()
         elif kind == "pre_details":
             # the same pipeline again, this time asking for the details of the steps
             idnt.apply_preprocessing(copy.deepcopy(idnt.preprocessing), copy.deepcopy(idnt.preprocessing_options),
@@ -372,7 +388,7 @@ def check_case(case, ctx, ):
             opts_before = copy.deepcopy(idnt.preprocessing_options)
             exc = do_op(idnt, op, curve)
             last = op
-            if exc is not None or op["op"] in ("edit", "getparams_edit", "params_attr", "range_nudge", "dict_reorder"):
+            if exc is not None or op["op"] in ("edit", "getparams_edit", "params_attr", "range_nudge", "dict_reorder", "pre_held"):
                 special = True
             # class histogram of the orders the property names
             fpn = idnt.fit_properties
@@ -451,6 +467,16 @@ def check_case(case, ctx, ):
                           f"unchanged fit_model() after step {n} ({op['op']}) ran {len(rec.calls) - ncalls} optimisations")
                 ctx.check(fitgen.snapshot(idnt) == snap, "refit-changes-state", opdesc,
                           f"unchanged fit_model() after step {n} changed the curve")
+                # ---- (3b) the very same call again (same keywords and values, e.g. segment="approach" twice)
+                # (parameter specifications are realised relative to the curve's current parameters: not the same values)
+                if op["op"] in ("fit", "edit") and exc is None and "params_initial" not in (op.get("kw") or {}) \
+                        and op.get("key") != "params_initial":
+                    ncalls = len(rec.calls)
+                    exc4 = do_op(idnt, op, curve)
+                    ctx.check(exc4 is None and len(rec.calls) == ncalls and fitgen.snapshot(idnt) == snap,
+                              "repeated-call-optimises-again", opdesc,
+                              f"step {n} {op} issued a second time: raised {exc4!r}, ran {len(rec.calls) - ncalls} "
+                              f"optimisations, state {'unchanged' if fitgen.snapshot(idnt) == snap else 'changed'}")
             # scan arrays, when present without plateau fit, equal a fresh scan under the stored settings
             if "optimal_fit_E_array" in fp and not fp.get("optimal_fit_edelta") and op["op"] == "emod" and exc is None:
                 settings = stored_settings(idnt)
